@@ -23,7 +23,7 @@ def valAt : VFields → Nat → Option (Str × Val)
 theorem satFields_at (c : Cfg) : ∀ (fs : Fields) (m : Obj) (vs : VFields) (i : Nat) (name : Str) (tag : Option Str) (t : Ty),
     satFields c fs m vs = true → fieldAt fs i = some (name, tag, t) →
     ∃ v, valAt vs i = some (name, v)
-      ∧ fieldSat c name tag t.isSlice (derefKind t) m v (fun j v => satTy c.nest t j v) (fun v => satAbsent c t v)
+      ∧ fieldSat c name tag t.isSlice (derefKind t) m v (fun j v => satTy (c.nestIn m) t j v) (fun v => satAbsent c t v)
           (fun d v => satDefault t d v) (fun v => isZero t v) = true
   | .nil, _, _, _, _, _, _, _, h => by simp [fieldAt] at h
   | .cons n tg ty rest, m, vs, i, name, tag, t, hs, hf => by
@@ -51,7 +51,7 @@ theorem accepted_fieldwise (c : Cfg) (hc : c.pinned = false) (fs : Fields) (m : 
     (h : unmarshal c (.struct fs) (.obj m) = .ok v) (i : Nat) (name : Str) (tag : Option Str) (t : Ty)
     (hf : fieldAt fs i = some (name, tag, t)) :
     ∃ vs w, v = .struct vs ∧ valAt vs i = some (name, w)
-      ∧ fieldSat c name tag t.isSlice (derefKind t) m w (fun j v => satTy c.nest t j v) (fun v => satAbsent c t v)
+      ∧ fieldSat c name tag t.isSlice (derefKind t) m w (fun j v => satTy (c.nestIn m) t j v) (fun v => satAbsent c t v)
           (fun d v => satDefault t d v) (fun v => isZero t v) = true := by
   have hs := accept_sound c hc _ _ _ h
   cases v with
@@ -79,11 +79,11 @@ theorem clause_required_supplied
     (hsat : fieldSat c name (some tv) isSl (some k) m w conv (fun _ => false) dflt isZ = true)
     (hp : parseTagC c.repaired name tv = .ok (key, po)) (hkey : key ≠ "-".toList)
     (hd : (effOpts po).default = []) (hopt : declOptional (effOpts po) m = false) :
-    ∃ j0, lookupKey c key m = .ok (some j0) := by
+    ∃ j0, lookupKey c (optInherit po) key m = .ok (some j0) := by
   unfold fieldSat at hsat
   simp only [hp, hkey, if_false, Bool.and_eq_true] at hsat
   obtain ⟨_, hrest⟩ := hsat
-  cases hg : lookupKey c key m with
+  cases hg : lookupKey c (optInherit po) key m with
   | error e => simp [hg] at hrest
   | ok lk =>
     cases lk with
@@ -105,7 +105,7 @@ exactly the value it denotes. -/
 theorem clause_supplied
     (hsat : fieldSat c name (some tv) isSl (some k) m w conv absent dflt isZ = true)
     (hp : parseTagC c.repaired name tv = .ok (key, po)) (hkey : key ≠ "-".toList)
-    {j0 : J} (hg : lookupKey c key m = .ok (some j0)) (hnn : (fromArrayValue c isSl j0).isNull = false) :
+    {j0 : J} (hg : lookupKey c (optInherit po) key m = .ok (some j0)) (hnn : (fromArrayValue c isSl j0).isNull = false) :
     rangeOK (effOpts po) (some k) (fromArrayValue c isSl j0) = true
     ∧ optionsOK (effOpts po) (some k) (fromArrayValue c isSl j0) = true
     ∧ conv (fromArrayValue c isSl j0) w = true := by
@@ -132,7 +132,7 @@ theorem rangeOK_numeric {o : Opts} {r : Range} {x : J} (hr : o.range = some r) (
 /-- **clause 5b (defaults)** — an absent field with a declared default holds the default; an absent optional field is untouched. -/
 theorem clause_absent
     (hsat : fieldSat c name (some tv) isSl (some k) m w conv absent dflt isZ = true)
-    (hp : parseTagC c.repaired name tv = .ok (key, po)) (hkey : key ≠ "-".toList) (hg : lookupKey c key m = .ok none) :
+    (hp : parseTagC c.repaired name tv = .ok (key, po)) (hkey : key ≠ "-".toList) (hg : lookupKey c (optInherit po) key m = .ok none) :
     (if !(effOpts po).default.isEmpty then dflt (effOpts po).default w
      else if declOptional (effOpts po) m then isZ w else absent w) = true := by
   unfold fieldSat at hsat
